@@ -86,6 +86,9 @@ class IntervalEval:
                 a = args[0]
                 lo = 0 if a.lo <= 0 <= a.hi else min(abs(a.lo), abs(a.hi))
                 return Iv(lo, max(abs(a.lo), abs(a.hi)), a.integral)
+            if fn in ("min", "max") and len(args) >= 2 and all(isinstance(a, Iv) for a in args):
+                pick = min if fn == "min" else max
+                return Iv(pick(a.lo for a in args), pick(a.hi for a in args), all(a.integral for a in args))
             if fn in ("cls._test_boundaries", "self._test_boundaries") and len(args) == 1:
                 m = self.repo.lookup_method(self.ctx, "_test_boundaries")
                 if m is None:
